@@ -5,9 +5,9 @@ from props import codegen_common as cg
 from props import c01
 
 LEVEL = 'proof'
-MODULES = ['Pysmi.Props.C06']
-LAKE_TARGETS = ['Pysmi.Props.C06']
-THEOREMS = [
+MODULES = ['Pysmi.Props.C06', 'Pysmi.Pins.SkelC06']
+LAKE_TARGETS = ['Pysmi.Props.C06', 'Pysmi.Pins.SkelC06']
+THEOREMS = ['Pysmi.Pins.SkelC06.pin_genObjects', 'Pysmi.Pins.SkelC06.pin_genTableIndex', 'Pysmi.Pins.SkelC06.pin_genCompliances', 'Pysmi.Pins.SkelC06.pin_genObjectType', 
     'Pysmi.Struct.C06_importmap_spec',
     'Pysmi.Struct.C06_object_lists',
     'Pysmi.Struct.C06_indices',
